@@ -265,6 +265,20 @@ def run(ctx):
                 r.bad("path_equals", "path_equals answers %s for the stdin entry" % v1, fn=pe, construct="path_equals")
         else:
             r.bad("path_equals", "path_equals no longer compares the entry's file handle with the stdout handle", fn=pe, construct="path_equals")
+        # the two comparisons inside path_equals: the inode shortcut answers "never equal" on a *different* inode, and the
+        # handles are compared for equality
+        ne_ = facts.fns.get(W + "::path_equals::never_equal")
+        cl_ = [c_ for c_ in facts.closures_of(W + "::path_equals") if [x for x in c_.calls() if x.path.startswith("core::cmp::PartialEq::")]]
+        ok_ne = ne_ is not None and [x for x in ne_.calls() if x.path == "core::cmp::PartialEq::ne"] and \
+            not [x for x in ne_.calls() if x.path == "core::cmp::PartialEq::eq"] and \
+            ne_.calls_to(W + "::DirEntry::ino") and ne_.calls_to("same_file::Handle::ino")
+        ok_eq = cl_ and all([x for x in c_.calls() if x.path == "core::cmp::PartialEq::eq"] and
+                            not [x for x in c_.calls() if x.path == "core::cmp::PartialEq::ne"] for c_ in cl_)
+        if ok_ne and ok_eq:
+            r.ok("path_equals|compare", "never_equal ⇔ dent.ino() != handle.ino(); equal ⇔ Handle(path) == handle", fn=pe)
+        else:
+            r.bad("path_equals|compare", "path_equals compares the inode numbers / the handles with the wrong relation: the file that "
+                  "stdout is redirected to is searched, or every other file is skipped", fn=pe, construct="path_equals")
         ro = facts.fn(W + "::Worker::run_one")
         ebr = ExprBuilder(ro)
         gw = ro.calls_to(W + "::Worker::generate_work")
@@ -296,6 +310,16 @@ def run(ctx):
                   "walker, which never opens it, does not", fn=ro, loc=errv[0].loc, construct="max_depth")
         else:
             r.ok("max_depth|read-error", "read_dir failures are not reported by run_one", fn=ro, nontrivial=False)
+        gwf = facts.fn(W + "::Worker::generate_work")
+        ebw = ExprBuilder(gwf)
+        fp = gwf.calls_to(W + "::DirEntryRaw::from_path")
+        fl_sw = cond_switches(gwf, lambda e: any(x.k == "field" and x[3] == "follow_links" for x in walk(e)), ebw)
+        if fp and fl_sw and not guarded(gwf, [fp[0].bb], fl_sw, True) and Wr.const_val(ebw.operand(fp[0].args[2])) == 1:
+            r.ok("follow|restat", "follow_links ∧ symlink ⇒ the entry is re-read with link following on", fn=gwf)
+        else:
+            r.bad("follow|restat", "under follow_links the parallel walker no longer re-reads a symlink entry through the link "
+                  "(DirEntryRaw::from_path(.., true)): symlinked directories are not descended although the serial walker does",
+                  fn=gwf, construct="follow_links")
         sfs = ro.calls_to(W + "::is_same_file_system")
         if sfs and gw:
             s0 = seed_after_call(ro, sfs[0], V("Ok", I(0)))
